@@ -129,6 +129,19 @@ var propSpecs = []PropSpec{
 		Outside:     "queues longer than the bounds; the amount of credit granted by a removal and the dynamic soft quota (not specified by the documentation) - after a removal an Add below the hard limit may succeed or report ErrQueueNoCredit; linearizability of all histories rests on the lock-discipline premise (race monitor) plus the one-step refinement, the history search is a cross-check within its bounds",
 		Assumptions: commonAssumptions,
 		Tune:        func(cfg *Config, tier, entry string) {}},
+	{ID: "C06", Pkgs: []string{"pubsub"},
+		BoundsQ:     "step: unlimited / fixed capacity 1..3 / quota tracker (hard 1..3, soft 0..hard), prefix of <=3 pushes at either end, optional Close, then 2 arbitrary operations out of 12 (Push, Pop, ForcePush, Wait, WaitPush at both ends, Len, Close), Len and both non-destructive walks compared with a reference deque after every step; histories: 2 goroutines, 3 operations of 12 kinds on unlimited and capacity-1 deques, linearization search, preemption bound 1; race monitor on every execution",
+		BoundsT:     "3 operations per step; histories with 3 goroutines (4 operations), preemption bound 2",
+		Outside:     "longer deques; for the quota tracker the eviction rule is asserted only as 'at most one, from the opposite end, push then succeeds' and plain pushes below the hard limit may report ErrQueueNoCredit; the reduction to all histories is the argument of DESIGN C05/C06",
+		Assumptions: commonAssumptions,
+		Tune: func(cfg *Config, tier, entry string) {
+			if entry == "VC06_Hist" {
+				cfg.Preempt = 1
+				if tier == "thorough" {
+					cfg.Preempt = 2
+				}
+			}
+		}},
 	{ID: "TV", Pkgs: []string{"internal"}, BoundsQ: "translator validation corpus"},
 }
 
